@@ -242,7 +242,8 @@ where
 impl<F: WithSmallOrderMulGroup<3>, CS: PolynomialCommitmentScheme<F>> VerifyingKey<F, CS> {
     /// Return the bytes_length of a VerifyingKey
     pub fn bytes_length(&self, format: SerdeFormat) -> usize {
-        10 + (self.fixed_commitments.len() * byte_length::<CS::Commitment>(format))
+        // version (1) + k (1) + number of fixed commitments (u32), see `write`
+        6 + (self.fixed_commitments.len() * byte_length::<CS::Commitment>(format))
             + self.permutation.bytes_length(format)
     }
 
@@ -383,8 +384,9 @@ where
 
     /// Gets the total number of bytes in the serialization of `self`
     pub fn bytes_length(&self, format: SerdeFormat) -> usize {
+        // what `write` emits: the verifying key, the fixed values and the permutation
+        // polynomials in Lagrange form (everything else is recomputed by `read`)
         self.vk.bytes_length(format)
-            + 12 // bytes used for encoding the length(u32) of "l0", "l_last" & "l_active_row" polys
             + polynomial_slice_byte_length(&self.fixed_values)
             + self.permutation.bytes_length()
     }
